@@ -123,7 +123,13 @@ func (c *c03) genProject(r *rng) (Project, bool) {
 	multi := false
 	if r.chance(700) {
 		multi = true
-		switch r.n(5) {
+		switch r.n(8) {
+		case 5:
+			cfg.DupPathParams = 2 + r.n(3)
+		case 6:
+			cfg.PathRedescribe = 2 + r.n(3)
+		case 7:
+			cfg.MacroGraph = 2 + r.n(4)
 		case 0:
 			cfg.RecursiveMacros = 2 + r.n(3)
 		case 1:
